@@ -140,7 +140,7 @@ impl Prop for C15 {
         "Ordered maps of 0..=12 distinct Shift-JIS-lossless names (empty name, half-width kana, kanji with ASCII-looking trail bytes weighted) to contents with lengths from {0,1,31,32,33,63,64,65, random <= 600}; plus files of 65535 and 4097 tiny \
          entries a few >= 64 KiB bodies, and a reference-built image whose name table lies behind 17 MiB of bodies. Oracle: parse(serialize(m)) == m including order; an independent reader of the image checks the magic, count = number of files, every recorded name offset points at the NUL-terminated Shift-JIS name inside the file, \
          every (address, size) is exact and inside the file, address % 32 == 0; a reference builder produces a second conforming image of the same files (names before / after / between bodies, bodies in any order, gaps, arbitrary unknown fields, bodies 32-aligned) \
-         and parse must return the same files. Non-trivial: >= 2 files with at least one length not a multiple of 32 or empty, or a non-ASCII name. Distinct = distinct case value."
+         and parse must return the same files. 1 name in ~140 is 150 bytes..36 KiB long (mixed single/double-byte). Non-trivial: >= 2 files with at least one length not a multiple of 32 or empty, or a non-ASCII name. Distinct = distinct case value."
             .into()
     }
     fn assumptions() -> Vec<String> {
